@@ -631,6 +631,9 @@ theorem read_parts (parts : List (List (D × R))) :
 @[simp] theorem flag_rotate : Gen.rotateNeverOverwrites = true := by decide
 @[simp] theorem flag_rotate_first : Gen.templateRotatesBeforeOpen = true := by decide
 
+/-- the body of `PathTemplateWriter.write` in the current source is the one `tmplTs` / `tmplRunRecords` read -/
+theorem template_write_is_frozen : Gen.templateWriteBody = templateWriteFrozen := by decide +kernel
+
 theorem seqLoop_spec (taken : Name → Bool) (cand : Nat → Name) : ∀ (fuel k r : Nat),
     seqLoop taken cand fuel k = some r → taken (cand r) = false ∧ k ≤ r := by
   intro fuel
